@@ -36,6 +36,7 @@ import os
 from vcommon import read_ndjson, write_ndjson
 
 SD = "Scmp"
+KIND_OF_TYPE = {1: "DestUnreach", 2: "PacketTooBig", 4: "ParamProblem", 5: "ExtIfDown", 6: "IntConnDown"}
 
 # switches of Scmp.tla as the pinned tree behaves (see known_findings.d/C14.json)
 PINNED = {"VERIFY_CKSUM": "TRUE", "UNK_ERR_IS_ERR": "TRUE", "ROUTER_VERIFY_CKSUM": "FALSE"}
@@ -64,9 +65,9 @@ def tables_cfg(table, gen, sws, brokenq="FALSE", inv=None):
             % (table, gen, brokenq, sw(sws), inv, "Emit" if gen == "TRUE" else ""))
 
 
-def exchange_cfg(maxorig, answer_errors, sws, extra_inv=""):
-    return ("SPECIFICATION Spec\nCONSTANTS\n  MAXORIG = %d\n  ANSWER_ERRORS = %s\n%sINVARIANTS NoErrorLoop NoReplyToMalformed EchoFaithful AtMostOneAnswer ChainBounded TotalBounded %s\n"
-            "PROPERTY Termination\nCHECK_DEADLOCK FALSE\n" % (maxorig, answer_errors, sw(sws), extra_inv))
+def exchange_cfg(maxorig, answer_errors, sws, extra_inv="", gen="FALSE"):
+    return ("SPECIFICATION Spec\nCONSTANTS\n  MAXORIG = %d\n  ANSWER_ERRORS = %s\n  GEN = %s\n%sINVARIANTS NoErrorLoop NoReplyToMalformed EchoFaithful AtMostOneAnswer ChainBounded TotalBounded %s %s\n"
+            "PROPERTY Termination\nCHECK_DEADLOCK FALSE\n" % (maxorig, answer_errors, gen, sw(sws), extra_inv, "Emit" if gen == "TRUE" else ""))
 
 
 def socket_cfg(maxin, gen, sws, drop="FALSE", echo="TRUE"):
@@ -126,9 +127,9 @@ def run(c):
     ]
     c.cov["rule"] = ("cells of the decision tables printed by TLC (quote: kind x header size x offender length; reply: type x bytes present x "
                      "truncated/checksum x path reversible x address decodable; router: offender class x site; socket: arrival sequences); "
-                     "non-trivial = quote cell whose offender exceeds the budget (truncation happens) / reply cell that is not 'unknown type, "
-                     "nothing happens' (known type, or P-constrained) / router cell with an SCMP offender / socket sequence mixing datagrams "
-                     "and SCMP; distinct = by cell")
+                     "non-trivial = quote cell whose offender exceeds the budget (truncation happens) / reply cell of a known SCMP type or of an "
+                     "unknown error type with a type field / router case with an SCMP offender or an offender around the quote budget / socket "
+                     "sequence mixing datagrams and SCMP / recorded socket run; distinct = by cell")
     c.cov["exhaustive"] = True
     nontrivial = 0
     evaluations = 0
@@ -227,7 +228,7 @@ def run(c):
             c.drift("reply %s: the raw packet view rejected the packet" % tag)
             continue
         st["fed"] += 1
-        if cell["t"] in (1, 2, 4, 5, 6, 128, 129, 130, 131) or cell["must_not_answer"]:
+        if cell["t"] in (1, 2, 4, 5, 6, 128, 129, 130, 131) or (cell["t"] < 128 and cell["have"] >= 4):
             nontrivial += 1
         d = x["d"] or {}
         if any(d.get(k) != cell[k] for k in ("ck", "rev", "addr")) or (cell["have"] >= 1 and d.get("t") != cell["t"]):
@@ -291,6 +292,11 @@ def run(c):
             if site in ("expired", "egress_down", "unreachable", "deliver") and not cell["ck"]:
                 continue   # transit routers do not look at the checksum: one representative
             rcases.append(dict(cell, site=site))
+        if not cell["scmp"]:
+            # natural flows whose offender is around / beyond the quote budget (reply header 84 B, offender header 84 B + 8 B UDP)
+            for site in ("expired", "egress_down", "unreachable"):
+                for pay in (0, 1034, 1035, 1036, 1037, 1046, 1047, 1048, 1049, 1050, 1500, 4000, 9000):
+                    rcases.append(dict(cell, site=site, pay=pay))
     inp = os.path.join(c.work, "router_in.ndjson")
     outp = os.path.join(c.work, "router_out.ndjson")
     write_ndjson(inp, rcases)
@@ -298,6 +304,7 @@ def run(c):
     if rc != 0:
         c.fail_tool("router harness failed rc=%s %s" % (rc, (so or "")[-400:]))
     rst = {"cases": 0, "errors_returned": 0, "echo_replies": 0, "must_not_answer": 0}
+    router_quotes = []
     for cell, x in zip(rcases, read_ndjson(outp)):
         if "build_err" in x:
             c.drift("router case %s could not be built: %s" % (cell, x["build_err"]))
@@ -321,6 +328,11 @@ def run(c):
                 c.drift("router %s: %d packets returned, I-layer %d" % (tag, x["answers"], cell["answers"]))
             for m in x["returned"]:
                 rst["errors_returned"] += 1
+                if not m.get("unparsable") and m.get("t") in KIND_OF_TYPE and m.get("complete"):
+                    router_quotes.append({"ev": "quote", "ctor": "pocket_sim/%s" % site, "kind": KIND_OF_TYPE[m["t"]], "hdr": m["hdr"], "off": x["offender_len"],
+                                          "total": m["total"], "quote": m["quote"], "prefix": m["prefix"], "ck": m["ck"]})
+                    if x["offender_len"] > m["quote"]:
+                        nontrivial += 1
                 if m.get("unparsable"):
                     c.violation("ErrorPacketUnparsable:pocket_sim", "returned packet is not a parsable SCMP packet (%s)" % tag, rep)
                     continue
@@ -355,15 +367,89 @@ def run(c):
                 c.drift("router %s: %d packets returned by the router's echo service, I-layer %d" % (tag, x["answers"], cell["echo_answers"]))
     replayed += len(rcases)
     c.cov["router_cases"] = rst
-    if rst["errors_returned"] == 0 or rst["must_not_answer"] == 0:
+    if rst["must_not_answer"] == 0:
         c.fail_tool("vacuous router table: %s" % rst)
+    if rst["errors_returned"] == 0:
+        c.drift("router replay: the simulated routers returned no SCMP error at all (%s)" % rst)
     c.sample({"router_case": rcases[len(rcases) // 3]})
 
     # ------------------------------------------------------------------ 1d exchange model (no error loops, termination)
-    r = c.tlc(SD, "ScmpExchange", cfg=cfg(c, "exchange.cfg", exchange_cfg(3 if thorough else 2, "FALSE", IDEAL)), timeout=2400)
+    r = c.tlc(SD, "ScmpExchange", cfg=cfg(c, "exchange.cfg", exchange_cfg(2, "FALSE", PINNED, gen="TRUE")), timeout=2400)
     design_violations(c, r, "ScmpExchange")
     if r.ok:
         c.require_coverage(r, ["Originate", "LoseAny", "DeliverAny", "RouterFailAny"])
+    xbeh = [{"log": l} for l in c.printed_json(r, "REPLAY")]
+    if not xbeh:
+        c.fail_tool("exchange model: TLC printed no finished exchanges")
+    if thorough:
+        r3 = c.tlc(SD, "ScmpExchange", cfg=cfg(c, "exchange3.cfg", exchange_cfg(3, "FALSE", IDEAL)), timeout=3000, coverage=False)
+        design_violations(c, r3, "ScmpExchange (3 originated messages)")
+    # the simulated network delivers its own error messages at once: replay the exchanges in which every router-made message is delivered
+    xbeh = [b for b in xbeh if all(m["fate"] == "delivered" for m in b["log"] if m["by"] == "router")]
+    if not thorough:
+        xbeh = [b for i, b in enumerate(xbeh) if i % 3 == c.seed % 3 or len(b["log"]) >= 4]
+    inp = os.path.join(c.work, "exchange_in.ndjson")
+    outp = os.path.join(c.work, "exchange_out.ndjson")
+    write_ndjson(inp, xbeh)
+    rc, so = c.sh([binp, "exchange", inp, outp], timeout=3000)
+    if rc != 0:
+        c.fail_tool("exchange harness failed rc=%s %s" % (rc, (so or "")[-400:]))
+
+    def canon(msgs):
+        def anc(i):
+            m = msgs[i - 1]
+            if m["cause"] == 0 or m["cause"] > len(msgs):
+                return (m["k"], m["src"])
+            return (m["k"], m["by"], anc(m["cause"]))
+        return sorted(str(anc(i + 1)) for i in range(len(msgs)))
+
+    xst = {"exchanges": 0, "messages": 0, "replies": 0, "router_errors": 0, "caused_by_error_checked": 0}
+    for b, x in zip(xbeh, read_ndjson(outp)):
+        if x.get("world_failed"):
+            c.drift("exchange replay: a probe datagram through the healthy simulated network did not arrive; exchanges not replayed")
+            break
+        xst["exchanges"] += 1
+        evaluations += 1
+        real = x["real"]
+        if len(b["log"]) > 2:
+            nontrivial += 1
+        tag = "exchange %s" % [(m["k"], m["src"], m["fate"], m["cause"]) for m in b["log"]]
+        rep = {"model": b["log"], "real": real, "notes": x["notes"]}
+        if x["panic"]:
+            c.violation("Panic:exchange", "a handler or the simulator panicked: %s (%s)" % (x["panic"], tag), rep)
+            continue
+        if any("does not die out" in n for n in x["notes"]):
+            c.violation("ExchangeDoesNotTerminate", "more than 40 messages were settled (%s)" % tag, rep)
+        xst["messages"] += len(real)
+        for m in real:
+            if m["cause"] == 0:
+                continue
+            pk = real[m["cause"] - 1]["k"]
+            xst["caused_by_error_checked"] += 1
+            if m["by"] == "router":
+                xst["router_errors"] += 1
+            if pk in ("err", "uerr"):
+                c.violation("ErrorLoop:%s:%s" % (m["by"], pk), "an SCMP error (%s) caused a %s message from the %s (%s)" % (pk, m["k"], m["by"], tag), rep)
+            elif pk == "bad" and m["by"] == "host":
+                c.violation("ErrorOrMalformedAnswered:exchange:wrong-checksum", "a host answered a malformed SCMP message with %s (%s)" % (m["k"], tag), rep)
+            elif m["by"] == "host" and pk == "req":
+                xst["replies"] += 1
+                if m["k"] != "rep" or not m["faithful"]:
+                    c.violation("EchoUnfaithful:exchange", "reply to an echo request: kind %s, %s (%s)" % (m["k"], m.get("why"), tag), rep)
+        want = [k for k in canon(b["log"]) if k.startswith("('rep', 'host', ('req'")]
+        got = [k for k in canon(real) if k.startswith("('rep', 'host', ('req'")]
+        if len(got) < len(want):
+            c.violation("EchoNotAnswered:exchange", "%d delivered echo requests, %d replies (%s)" % (len(want), len(got), tag), rep)
+        elif len(got) > len(want):
+            c.violation("EchoAnsweredTwice:exchange", "%d delivered echo requests, %d replies (%s)" % (len(want), len(got), tag), rep)
+        if canon(b["log"]) != canon(real) or x["notes"]:
+            c.drift("%s: real messages %s %s" % (tag, [(m["k"], m["by"], m["cause"]) for m in real], x["notes"]))
+    replayed += len(xbeh)
+    c.cov["exchange_replay"] = xst
+    if xst["exchanges"] and (xst["replies"] == 0 or xst["router_errors"] == 0):
+        c.drift("exchange replay saw %s" % xst)
+    if xbeh:
+        c.sample({"exchange": xbeh[len(xbeh) // 2]["log"]})
     rb = c.tlc(SD, "ScmpExchange", cfg=cfg(c, "exchange_broken.cfg", exchange_cfg(2, "TRUE", IDEAL, "ChainLimit")), expect_violation=True, coverage=False, timeout=900)
     if not ({"NoErrorLoop", "ChainLimit", "ChainBounded", "TotalBounded"} & set(rb.violated)):
         c.fail_tool("oracle self-check failed: ANSWER_ERRORS=TRUE violates nothing (%s)" % rb.violated)
@@ -433,6 +519,10 @@ def run(c):
     res = json.load(open(resj))
     for pv in res["pv"]:
         c.violation(pv["key"], pv["what"] + " (record, seed %d)" % c.seed, {"seed": c.seed, "pv": pv})
+    with open(ev, "a") as f:     # error packets that came back in the router replay: quoting judged by TLC as well
+        for q in router_quotes:
+            f.write(json.dumps(q, separators=(",", ":")) + "\n")
+    c.cov["router_cases"]["quotes_validated_by_tlc"] = len(router_quotes)
     nev = sum(1 for _ in open(ev)) - 1
     tcfg = cfg(c, "trace.cfg", trace_cfg(PINNED))
     r = c.tlc(SD, "Trace_Scmp", cfg=tcfg, mode="trace", env={"TRACE": ev}, timeout=3000)
